@@ -6,6 +6,7 @@ import os
 import random
 import re
 import shutil
+import subprocess
 from concurrent.futures import ProcessPoolExecutor
 
 import cli_common as cc
@@ -35,8 +36,55 @@ PANIC = re.compile(r"panicked at ([^:\n]+):(\d+):\d+:\n([^\n]*)")
 CONFIG_PANICS = ("Unable to canonicalize", "Expected config to be", "Error parsing config", "Unable to read config")
 
 
-def classify(r, label, witness):
-    """-> violation dict or None.  Raises Inconclusive for a watchdog.
+def _workspace_crates():
+    out = set()
+    for d in ("crates", "relay-crates"):
+        try:
+            out.update(n.replace("-", "_") for n in os.listdir(os.path.join(runner.REPO, d)))
+        except OSError:
+            pass
+    return out
+
+
+def recursion_cycle(cli, root):
+    """Which functions recurse when the compile of `root` overflows its stack: the compile is run once more under gdb
+    (only for a case that already crashed; ~10-20 s), the backtrace at the abort is reduced to function names without
+    hashes, and the first stretch that repeats three times in a row is the cycle.  Returns the sorted distinct names of
+    the /repo functions (last path segment, closures folded into their function) in one period, or None (no gdb, no
+    periodic backtrace).  The names do not depend on field names, depth or seed."""
+    gdb = shutil.which("gdb")
+    if not gdb:
+        return None
+    env = dict(runner.BASE_ENV)
+    env.update({"NO_COLOR": "1", "RUST_BACKTRACE": "0"})
+    try:
+        p = subprocess.run([gdb, "-batch", "-nx", "-ex", "run", "-ex", "bt 400", "--args", cli, "--config", "isograph.config.json"],
+                           cwd=root, env=env, stdout=subprocess.PIPE, stderr=subprocess.DEVNULL, timeout=300)
+    except (OSError, subprocess.TimeoutExpired):
+        return None
+    frames = []
+    for l in p.stdout.decode(errors="replace").split("\n"):
+        m = re.match(r"#\d+\s+(?:0x[0-9a-f]+ in )?(.+?) \(", l)
+        if m:
+            frames.append(re.sub(r"::h[0-9a-f]{16}$", "", m.group(1)))
+    for start in range(0, 80):
+        for period in range(1, 80):
+            a, b, c = (frames[start + i * period:start + (i + 1) * period] for i in range(3))
+            if len(c) == period and a == b == c:
+                crates = _workspace_crates()
+                names = set()
+                for f in a:
+                    segs = [x for x in re.sub(r"<[^<>]*>", "", f).split("::") if x and x != "{{closure}}"]
+                    if segs and segs[0] in crates:
+                        names.add(segs[-1])
+                return sorted(names) or None
+    return None
+
+
+def classify(r, label, witness, rerun=None):
+    """-> violation dict or None.  Raises Inconclusive for a watchdog.  rerun = (cli, project dir) lets a stack overflow
+    be named after the functions that recurse (the same recursion gives the same signature for every shape, any other
+    abort in that shape stays a different signature) instead of after the workload that happened to reach it.
 
     Panic signatures name the cause, not the place where it happened to surface first:
     * `expect()` on an Err(Diagnostic) prints `<expect text>: Diagnostic(DiagnosticData { message: "..."`; the expect text
@@ -54,6 +102,12 @@ def classify(r, label, witness):
             return {"rule": "no-progress", "signature": f"C08/cpu-bound-exceeded/{label}", "what": f"{witness['case']} burned {r.cpu_s:.0f}s CPU", "witness": witness}
         raise runner.Inconclusive(f"wall-clock watchdog for {witness['case']}")
     if r.signal is not None:
+        if "has overflowed its stack" in r.stderr and rerun:
+            cycle = recursion_cycle(*rerun)
+            if cycle:
+                return {"rule": "stack-overflow", "signature": "C08/stack-overflow/" + "+".join(cycle),
+                        "what": f"{witness['case']} overflowed its stack ({r.signal}) recursing through " + ", ".join(cycle),
+                        "witness": dict(witness, stderr_tail=r.stderr[-500:])}
         return {"rule": "killed-by-signal", "signature": f"C08/signal/{r.signal}/{label}", "what": f"{witness['case']} died with {r.signal}",
                 "witness": dict(witness, stderr_tail=r.stderr[-500:])}
     if r.panicked():
@@ -167,7 +221,7 @@ def _case(spec):
         if _is_config_panic(r):
             out["stats"]["config_rejected_by_panic(not judged: config not well-formed)"] += 1
             return out
-        v = classify(r, label, wit)
+        v = classify(r, label, wit, rerun=None if spec.get("asan") else (spec["cli"], root))
         if v:
             # keep the inputs of crashing cases small enough to read
             files = {}
